@@ -472,6 +472,11 @@ func (cs *ContractSet) ParseFile(path, pkgPath string) error {
 			}
 			f := strings.Fields(strings.TrimPrefix(it.rest, "var"))
 			if len(f) >= 2 {
+				if g, dup := cs.Ghosts[f[0]]; dup && g.PkgPath != pkgPath {
+					// ghost variables share one name space: two packages declaring the same name would silently talk
+					// about one variable
+					cs.Errors = append(cs.Errors, fmt.Sprintf("%s:%d: ghost variable %s is already declared by %s", path, it.n, f[0], g.PkgPath))
+				}
 				cs.Ghosts[f[0]] = &GhostVar{PkgPath: pkgPath, Name: f[0], Type: strings.Join(f[1:], " ")}
 			}
 		case "lemma", "axiom":
